@@ -567,6 +567,16 @@ theorem C06_step_keep_under_faults (swr : Swr) (env : Loop.Env) (w : Loop.World)
       (Loop.step swr env w (.cycle sc F b)).shards[d]? = some shd ∧ (Loop.statusOf shd).has h = true :=
   Loop.step_keep_f swr env w sc F b hrep hnd hidle hmax hrun hr ha
 
+/-- **C07 in the closed loop, under faults: a shard in use is not scaled away.**  Whatever the fault
+    pattern and whether or not `ChangeScale` works, a running sidecar that holds any target is among the
+    running ones after the step, while the size is within max-shard. -/
+theorem C06_shard_in_use_stays (swr : Swr) (env : Loop.Env) (w : Loop.World) (sc : Sched) (F : List Loop.Fault) (b : Bool)
+    (hrep : w.replicas ≤ w.shards.length)
+    (hidle : ∀ sh ∈ w.running, Sidecar.IdleInv sh.sc) (hmax : (w.replicas : Int) ≤ env.opt.maxShard)
+    {i : Nat} {sh : Loop.Shard} (hrun : w.running[i]? = some sh) (hne : Loop.statusOf sh ≠ []) :
+    i < (Loop.step swr env w (.cycle sc F b)).replicas :=
+  Loop.step_nonempty_stays swr env w sc F b hrep hidle hmax hrun hne
+
 /-- **C06 "none stays unscraped", C05 "no interval in which no shard scrapes it": every history.**
     From any world that meets the invariant `WInv` (kept by every operation below, and true of freshly
     started sidecars), along every sequence — of any length, in any order — of coordination cycles
